@@ -11,7 +11,7 @@ Addressed(r) == LinkAddressed(r) /\ IpAddressed(r)
 \* loopback and the interface's own address are unicast addresses (martian sources, but not "non-unicast")
 UnicastSrc(r) == r.s \in {"uni-on", "uni-off", "uni", "ll", "loop", "own"}
 IsTcp(r) == r.p \in {"syn-open", "syn-bound", "syn-closed", "ack-closed", "rst-closed"}
-IsError(r) == r.p \in {"icmp-err", "rst-closed"}
+IsError(r) == r.p \in {"icmp-err", "rst-closed", "hbh-err"}
 Broken(r) == r.c \in {"ip-hdr", "ip-opt", "l4"} \/ (r.c = "udp0" /\ r.v = 6)
 \* may the stack answer with a TCP reset or an ICMP error?
 MayErrorReply(r) == Addressed(r) /\ UnicastDst(r) /\ UnicastSrc(r) /\ ~IsError(r) /\ ~Broken(r) /\ (r.m = "ip" \/ r.ld = "own" \/ TRUE)
